@@ -3015,3 +3015,84 @@ def m_minmax(I, c, a, b):
 @model('Ord::min@usize', 'Ord::max@usize')
 def m_ord_minmax(I, c, a, b):
     return min(a, b) if c.method == 'min' else max(a, b)
+
+
+# =========================================================================================
+# serde data model (C15, C16): a recording Serializer and a one-value Deserializer
+
+
+class ModelSerializer(Opaque):
+    def __init__(self):
+        self.calls = []
+
+
+@model('Serializer::serialize_unit_variant')
+def m_ser_unit_variant(I, c, ser, name, idx, variant):
+    deref_all(ser).calls.append(('unit_variant', bytes(sbytes(name)), idx, bytes(sbytes(variant))))
+    return Ok(UNIT())
+
+
+@model('Serializer::collect_str')
+def m_ser_collect_str(I, c, ser, val):
+    f = Formatter()
+    t = c.margs[0] if c.margs else None
+    if t is None:
+        raise Unsupported('collect_str without type argument')
+    r = I.trait_call('Display', 'fmt', t, [val, Ref([f], 0)])
+    if r.variant != 'Ok':
+        raise Panic('a Display implementation returned an error unexpectedly')
+    deref_all(ser).calls.append(('str', list(f.out)))
+    return Ok(UNIT())
+
+
+@model('Serializer::serialize_str')
+def m_ser_str(I, c, ser, s):
+    deref_all(ser).calls.append(('str', list(sbytes(s))))
+    return Ok(UNIT())
+
+
+class ModelDeserializer(Opaque):
+    """holds one value of the serde data model: ('str'|'borrowed_str'|'string'|'bytes'|'u64'|'i64'|'bool'|'unit'|'seq'|'map'|'f64'|'none', payload)"""
+    def __init__(self, kind, payload=None):
+        self.kind, self.payload = kind, payload
+
+
+class DeError(Opaque):
+    def __init__(self, msg):
+        self.msg = msg
+
+
+@model('Deserializer::deserialize_str', 'Deserializer::deserialize_string', 'Deserializer::deserialize_any')
+def m_de_str(I, c, de, visitor):
+    """drives the visitor as serde documents: the deserializer calls the visit_* method matching the value it holds;
+    visit_borrowed_str and visit_string default to visit_str; a method the visitor does not override yields invalid_type"""
+    d = deref_all(de)
+    vt = c.margs[0]
+    if d.kind in ('str', 'borrowed_str', 'string'):
+        arg = RStr(d.payload)
+        for meth in ({'str': ['visit_str'], 'borrowed_str': ['visit_borrowed_str', 'visit_str'], 'string': ['visit_string', 'visit_str']}[d.kind]):
+            r = I.prog.find_impl(('adt', 'Visitor', ()), vt, meth)
+            if r is not None:
+                imp, env = r
+                f = imp.methods[meth]
+                from .interp import Env
+                env = dict(env)
+                env['E'] = ('adt', 'DeError', ())
+                a = StringBuf(d.payload) if meth == 'visit_string' else arg
+                return I.call_fn(f, [visitor, a], Env(env))
+        return Err(DeError('invalid type: string, expected something else'))
+    meth = {'bytes': 'visit_bytes', 'u64': 'visit_u64', 'i64': 'visit_i64', 'bool': 'visit_bool', 'unit': 'visit_unit',
+            'seq': 'visit_seq', 'map': 'visit_map', 'f64': 'visit_f64', 'none': 'visit_none', 'char': 'visit_char'}[d.kind]
+    r = I.prog.find_impl(('adt', 'Visitor', ()), vt, meth)
+    if r is not None:
+        raise Unsupported('visitor overrides %s (not modelled)' % meth)
+    return Err(DeError('invalid type: %s' % d.kind))
+
+
+@model('Error::custom@DeError', 'Error::custom')
+def m_de_error_custom(I, c, msg):
+    f = Formatter()
+    t = c.margs[0] if c.margs else None
+    if t is not None:
+        I.trait_call('Display', 'fmt', t, [Ref([msg], 0), Ref([f], 0)])
+    return DeError(bytes(x for x in f.out if isinstance(x, int)).decode('utf8', 'replace'))
